@@ -550,6 +550,7 @@ type Clause struct {
 type LoopSpec struct {
 	Ref        string
 	Invariants []Clause
+	Leaves     []Clause // loop N leaves-when e
 	Unroll     bool
 }
 
@@ -985,6 +986,16 @@ func (cs *Contracts) LoadFile(path, pkgPath string, specOnly bool) {
 					}
 					if c, ok := mk(parts[2], l.line); ok {
 						ls.Invariants = append(ls.Invariants, c)
+					}
+				case "leaves-when":
+					// holds on every edge that leaves the loop for the code after it (break or the
+					// loop condition turning false; returns are not such edges)
+					if len(parts) < 3 {
+						fail(l.line, "leaves-when needs an expression")
+						continue
+					}
+					if c, ok := mk(parts[2], l.line); ok {
+						ls.Leaves = append(ls.Leaves, c)
 					}
 				case "unroll":
 					ls.Unroll = true
